@@ -57,3 +57,18 @@ use cgmath::*;
         p3 += 1; } p2 += 1; } p1 += 1; } p0 += 1; }
     acc
 }
+#[inline(always)] pub fn va2(v: Vector2<R>) -> [R; 2] { [v.x, v.y] }
+#[inline(always)] pub fn va3(v: Vector3<R>) -> [R; 3] { [v.x, v.y, v.z] }
+#[inline(always)] pub fn va4(v: Vector4<R>) -> [R; 4] { [v.x, v.y, v.z, v.w] }
+#[inline(always)] pub fn add_n<const N: usize>(a: [[R; N]; N], b: [[R; N]; N]) -> [[R; N]; N] {
+    let mut c = [[R(0.0); N]; N]; let mut j = 0; while j < N { let mut i = 0; while i < N { c[j][i] = a[j][i] + b[j][i]; i += 1; } j += 1; } c
+}
+#[inline(always)] pub fn scale_n<const N: usize>(a: [[R; N]; N], s: R) -> [[R; N]; N] {
+    let mut c = [[R(0.0); N]; N]; let mut j = 0; while j < N { let mut i = 0; while i < N { c[j][i] = a[j][i] * s; i += 1; } j += 1; } c
+}
+#[inline(always)] pub fn vadd_n<const N: usize>(a: [R; N], b: [R; N]) -> [R; N] {
+    let mut c = [R(0.0); N]; let mut i = 0; while i < N { c[i] = a[i] + b[i]; i += 1; } c
+}
+#[inline(always)] pub fn vscale_n<const N: usize>(a: [R; N], s: R) -> [R; N] {
+    let mut c = [R(0.0); N]; let mut i = 0; while i < N { c[i] = a[i] * s; i += 1; } c
+}
